@@ -212,9 +212,9 @@ def mix_batches(draw, r, kb):
     if r["k"] == "Scale":
         r["base"] = draw(mix_batches(r["base"], kb))
     if kb and draw(st.integers(0, 2)) == 0:
-        # same rank with 1-extents, or un-batched (a sub-kernel of lower non-zero rank cannot be indexed alongside its
-        # parent by Kernel.__getitem__: see the assumptions)
-        nb = [] if draw(st.booleans()) else [1 if (e != 1 and draw(st.booleans())) else e for e in kb]
+        # un-batched sub-kernels only: Kernel.__getitem__ hands the same index tuple to every node, so a sub-kernel whose batch
+        # shape merely broadcasts to its parent's (1-extents, lower rank) cannot be indexed alongside it - see the assumptions
+        nb = []
         r["p"] = _reduce_params(r["p"], kb, nb)
         r["batch"] = nb
     return r
@@ -241,20 +241,33 @@ def task_params(draw, tb, t, rank):
     return {"covar_factor": draw(arr(list(tb) + [t, rank], REAL)), "var": draw(arr(list(tb) + [t], pos(0.1, 2.0)))}
 
 
-def sanitize(r):
-    """Construct around a dependency quirk (counted nowhere, the class is simply not generated): ScaleKernel multiplies the
-    base covariance by outputscale.view(*batch, 1, 1); when that has a single element (batch shape (1,), (1,1)) and the base
-    covariance is a LinearOperator (LinearKernel, MultitaskKernel, LCMKernel), linear_operator's `mul` treats it as a python
-    scalar and the leading 1-dimensions of the batch shape are lost.  Such a ScaleKernel is made un-batched here."""
+def sanitize(r, state=None):
+    """Construct around two dependency quirks (the classes are simply not generated):
+    (a) ScaleKernel multiplies the base covariance by outputscale.view(*batch, 1, 1); when that has a single element (batch
+        shape (1,), (1,1)) and the base covariance is a LinearOperator (LinearKernel, MultitaskKernel, LCMKernel),
+        linear_operator's `mul` treats it as a python scalar and the leading 1-dimensions of the batch shape are lost.  Such a
+        ScaleKernel is made un-batched here.
+    (b) a ScaleKernel with more than one outputscale over a product of two LinearKernels evaluated at x1 == x2:
+        MulLinearOperator._mul_constant does `if other > 0` on the batch of constants and raises.  Below a batched ScaleKernel
+        only the first bare LinearKernel is kept, further ones become PolynomialKernel(power=1)."""
     r = dict(r)
     if r["k"] == "Scale":
-        r["base"] = sanitize(r["base"])
         b = r.get("batch", [])
+        inner = state
+        if any(e > 1 for e in b) and state is None:
+            inner = {"linear_seen": False}
+        r["base"] = sanitize(r["base"], inner)
         if b and all(e == 1 for e in b) and any(n["k"] in ("Linear", "Multitask", "LCM") for n in nodes(r["base"])):
             r["p"] = _reduce_params(r["p"], b, [])
             r["batch"] = []
     elif r["k"] in ("Add", "Prod"):
-        r["parts"] = [sanitize(p) for p in r["parts"]]
+        r["parts"] = [sanitize(p, state) for p in r["parts"]]
+    elif r["k"] == "Linear" and state is not None:
+        if state["linear_seen"]:
+            b = r.get("batch", [])
+            off = T(r["p"]["variance"])[..., 0]  # (*batch, 1): reuse the drawn positive numbers as the offset
+            r = {"k": "Poly1", "batch": b, "ad": r.get("ad"), "d": r["d"], "ard": False, "p": {"offset": off.tolist()}}
+        state["linear_seen"] = True
     return r
 
 
@@ -1076,8 +1089,9 @@ def run_active_dims(case, ctx: Ctx):
     if mode == "diag":
         want = want.diagonal(dim1=-2, dim2=-1)
     ctx.close(f"restricted({mode})", got, want, **tl)
-    if mode == "two" and case["lazy"]:
-        # the selection must happen exactly once on every route out of the lazy tensor
+    if mode == "two" and case["lazy"] and r["k"] != "Inducing":
+        # the selection must happen exactly once on every route out of the lazy tensor (InducingPointKernel: a slice can make
+        # x1 equal x2 and switch the diagonal correction on - not a function of point pairs)
         with ctx.observing("lazy.routes"):
             lz = k(x1, x2)
             g_t = dense(lz.transpose(-1, -2))
@@ -1255,10 +1269,11 @@ SPEC = PropertySpec(
         "the wrong dimension; DenseLinearOperator raises its own 'this is a bug' error)",
         "not generated, dependency: -1 ('keep') for a batch dimension in LinearOperator.expand (_expand_batch computes -1 // size for every "
         "operator); a ScaleKernel of batch shape (1,)/(1,1) over a LinearOperator-valued base kernel (Linear, Multitask, LCM): "
-        "linear_operator's mul treats the one-element outputscale as a python scalar and drops the leading 1-dimensions",
-        "sub-kernels of a composed kernel carry the batch shape of the parent, the same rank with 1-extents, or none; a sub-kernel of lower "
-        "non-zero batch rank cannot be indexed alongside its parent by Kernel.__getitem__ (the same index tuple is handed to every node) - "
-        "not covered",
+        "linear_operator's mul treats the one-element outputscale as a python scalar and drops the leading 1-dimensions; a batched ScaleKernel "
+        "over a product of two LinearKernels at x1 == x2 (MulLinearOperator._mul_constant does `if other > 0` on a batch of constants)",
+        "sub-kernels of a composed kernel carry the batch shape of the parent or none; a sub-kernel whose batch shape merely broadcasts to the "
+        "parent's (1-extents, lower non-zero rank) cannot be indexed alongside its parent by Kernel.__getitem__ (the same index tuple is "
+        "handed to every node: a slice of a 1-extent comes out empty, surplus indices reach into parameter dimensions) - not covered",
         "kernels with a kink at r = 0 are compared at atol 1e-6 (two routes centre the quadratic-expansion distance differently), others at 1e-11",
         "InducingPointKernel is not a function of point pairs (the diagonal correction depends on torch.equal(x1, x2)); it takes part in the "
         "active_dims relation only",
